@@ -12,6 +12,10 @@ func runDomains(t *testing.T, rc *RunCtx) {
 		runSourceEdge(t, rc)
 		return
 	}
+	if rc.Param("mode", "") == "daemon" {
+		runDaemonEdge(t, rc, "C05")
+		return
+	}
 	ch := rc.Ch
 	ipPool := []string{"10.0.0.1", "10.0.0.2", "192.168.7.9", "::1", "2001:db8::1", "fe80::1",
 		"10.0.0.1 ", "10.0.0.01", "10.0.0.1:443", "10.0.0.3", "10.0.1.1", "::2", "2001:db8::2", "2001:db8:ffff:1::99", "2001:db9::1", "fe80::2", "::ffff:10.0.0.1"}
